@@ -136,8 +136,11 @@ func ruleC11Single(c *Ctx, r *Rep) {
 			case *ast.CallExpr:
 				nm := calleeName(info, x)
 				if nm == "reflect.Value.Pointer" || nm == "reflect.Value.UnsafePointer" || nm == "reflect.Value.UnsafeAddr" || strings.HasPrefix(nm, "unsafe.") {
-					ok := strings.HasPrefix(fn, "allocator.") || fn == "env.pathIntact"
-					r.Check(ok, "identity:"+fn+":"+nm, x.Pos(), "%s in %s (pointer identity is allowed only in the allocator and pathIntact; an identity shortcut inside comparison treats aliased values of different length as equal)", nm, fn)
+					// containsSliceOf: the ownership test of the in-place slice update (does the replacement look back into the
+					// array it is written into?) — an address-range test that decides where to write, never whether two values
+					// are equal
+					ok := strings.HasPrefix(fn, "allocator.") || fn == "env.pathIntact" || fn == "containsSliceOf"
+					r.Check(ok, "identity:"+fn+":"+nm, x.Pos(), "%s in %s (pointer identity is allowed only in the allocator, its containsSliceOf test and pathIntact; an identity shortcut inside comparison treats aliased values of different length as equal)", nm, fn)
 				}
 				if nm == "reflect.DeepEqual" {
 					r.Bad("deepequal:"+fn, x.Pos(), "reflect.DeepEqual in %s is not jq's equality", fn)
